@@ -138,6 +138,10 @@ def build():
     fs.append(Fmt("SEPX", "sepx_letter_g", sep="g", sepflags=allflags))
     fs.append(Fmt("SEPX", "sepx_prefix_suffix", sep="_", sepflags=allflags, prefix="x", suffix="h", radix=16, base=2, eradix=10))
     fs.append(Fmt("SEPX", "sepx_int_only_all", sep="_", sepflags={("integer", k): True for k in KINDS}))
+    # mantissa radix 16 with decimal exponent digits: one flag on the exponent only (the exponent
+    # iterator must judge digits by the exponent radix)
+    fs.append(Fmt("SEPX", "sepx_hex_p_exp_i", sep="_", sepflags={("exponent", "internal"): True}, radix=16, base=2, eradix=10))
+    fs.append(Fmt("SEPX", "sepx_hex_p_exp_ilt", sep="_", sepflags={("exponent", k): True for k in ("internal", "leading", "trailing")}, radix=16, base=2, eradix=10))
     # TWIN: separator-free counterparts of the SEPX formats that are not STANDARD
     fs.append(Fmt("TWIN", "twin_hex_p", radix=16, base=2, eradix=10))
     fs.append(Fmt("TWIN", "twin_hex_hexexp", radix=16, base=16, eradix=16))
@@ -190,7 +194,7 @@ def build():
         f.force_invalid = True
         fs.append(f)
     # RADIX
-    for r in (2, 3, 8, 16, 36):
+    for r in (2, 3, 8, 16, 20, 36):
         fs.append(Fmt("RADIX", f"radix{r}", radix=r))
     return fs
 
